@@ -19,6 +19,7 @@ Section P.
   Notation cmp_nodes := (cmp_nodes V ltb leb).
   Notation cmp_consts := (cmp_consts V ltb leb).
   Notation chain := (chain V ltb leb).
+  Notation chain_legacy := (chain_legacy V ltb leb).
 
   Definition vec_args (n : node V) (vec : list V) := zip_args V (ordered_ids V n) vec.
 
@@ -107,7 +108,7 @@ Section P.
     - rewrite holds_le. split; intros [a [b [Ha [Hb Hc]]]]; exists b, a; auto.
   Qed.
 
-  (* a two-link chain: (a ? b) op c  means  a ? b  and  pivot op c, where the pivot is the greater
+  (* LEGACY operators (before 33cdc7f): a two-link chain  (a ? b) op c  meant  a ? b  and  pivot op c, where the pivot is the greater
      operand of the first link for < / <= and its lower operand for > / >= *)
   Definition pivot_of (first : assertion V) (op : cmpop) : option (node V) :=
     match first with
@@ -115,17 +116,17 @@ Section P.
     | _ => None
     end.
 
-  Lemma chain2_spec (args : nat -> option V) (first : assertion V) (op : cmpop) (p c : node V) (t : assertion V) :
+  Lemma chain2_legacy_spec (args : nat -> option V) (first : assertion V) (op : cmpop) (p c : node V) (t : assertion V) :
     pivot_of first op = Some p ->
     arith_like V p || arith_like V c = true ->
-    chain first op c = Some t ->
+    chain_legacy first op c = Some t ->
     (holds args t = Ok true <->
      holds args first = Ok true /\
      exists a b, operand args p = Ok a /\ operand args c = Ok b /\ cmp_consts op a b = true).
   Proof.
     intros Hp A H.
     assert (exists s, cmp_nodes op p c = Some s /\ t = AAnd first s /\ is_lit s = false) as [s [Hs [-> L]]].
-    { destruct first; try discriminate Hp; simpl in Hp; inversion Hp; subst p; unfold Model.chain in H;
+    { destruct first; try discriminate Hp; simpl in Hp; inversion Hp; subst p; unfold Model.chain_legacy in H;
         match type of H with option_map _ ?X = _ => destruct X as [s|] eqn:E; [|discriminate H] end;
         inversion H; subst; exists s; (split; [reflexivity|split; [reflexivity|]]);
         unfold Model.cmp_nodes in E; rewrite A in E;
@@ -135,24 +136,93 @@ Section P.
     rewrite (holds_and args first s L). rewrite (cmp_nodes_spec args op p c s A Hs). tauto.
   Qed.
 
-  (* PREPARED for proposed_fixes/C03-chain-further: chaining an assertion of ANY length once more adds exactly
-     one inequality, against the greatest (< / <=) or lowest (> / >=) operand of the chain so far *)
-  Lemma chain_fixed_spec (args : nat -> option V) (first : assertion V) (e e' : node V * node V) (op : cmpop)
+  (* chaining an assertion of ANY length once more adds exactly one inequality, against the greatest (< / <=)
+     or lowest (> / >=) operand of the chain so far, and the result remembers its new ends *)
+  Lemma chain_spec (args : nat -> option V) (first : assertion V) (e e' : node V * node V) (op : cmpop)
         (c : node V) (t : assertion V) :
     let p := match op with CLt | CLe => snd e | CGt | CGe => fst e end in
     arith_like V p || arith_like V c = true ->
-    chain_fixed V ltb leb first e op c = Some (t, e') ->
+    chain first e op c = Some (t, e') ->
     (holds args t = Ok true <->
      holds args first = Ok true /\
      exists a b, operand args p = Ok a /\ operand args c = Ok b /\ cmp_consts op a b = true) /\
     e' = match op with CLt | CLe => (fst e, c) | CGt | CGe => (c, snd e) end.
   Proof.
-    intros p A H. unfold chain_fixed in H. fold p in H.
+    intros p A H. unfold Model.chain in H. fold p in H.
     destruct (cmp_nodes op p c) as [s|] eqn:Hs; [|discriminate H]. inversion H; subst t e'. split; [|reflexivity].
     assert (L : is_lit s = false).
     { unfold Model.cmp_nodes in Hs. rewrite A in Hs.
       destruct p as [| | | | |]; destruct c as [| | | | |]; simpl in A; try discriminate A; inversion Hs; destruct op; reflexivity. }
     rewrite (holds_and args first s L). rewrite (cmp_nodes_spec args op p c s A Hs). tauto.
+  Qed.
+
+  (* ---------- a chain of ANY length means every inequality written (induction on how it was written) ---------- *)
+  Definition pivot_end (e : node V * node V) (op : cmpop) : node V :=
+    match op with CLt | CLe => snd e | CGt | CGe => fst e end.
+
+  (* lowest and greatest operand of what was written *)
+  Fixpoint rends (r : recipe V) : option (node V * node V) :=
+    match r with
+    | RLit _ => None
+    | RCmp op x y => Some (match op with CLt | CLe => (x, y) | CGt | CGe => (y, x) end)
+    | RChain f op o =>
+        match rends f with
+        | Some e => Some (match op with CLt | CLe => (fst e, o) | CGt | CGe => (o, snd e) end)
+        | None => None
+        end
+    end.
+
+  (* every comparison written involves at least one prior / arithmetic prior (two bare floats give a Python bool) *)
+  Fixpoint rguard (r : recipe V) : bool :=
+    match r with
+    | RLit _ => true
+    | RCmp _ x y => arith_like V x || arith_like V y
+    | RChain f op o =>
+        rguard f && match rends f with
+                    | Some e => arith_like V (pivot_end e op) || arith_like V o
+                    | None => false
+                    end
+    end.
+
+  (* the inequalities written, on the numbers *)
+  Fixpoint means (args : nat -> option V) (r : recipe V) : Prop :=
+    match r with
+    | RLit b => b = true
+    | RCmp op x y => exists a b, operand args x = Ok a /\ operand args y = Ok b /\ cmp_consts op a b = true
+    | RChain f op o =>
+        means args f /\
+        match rends f with
+        | Some e => exists a b, operand args (pivot_end e op) = Ok a /\ operand args o = Ok b /\ cmp_consts op a b = true
+        | None => False
+        end
+    end.
+
+  Lemma cmp_nodes_arith (op : cmpop) (x y : node V) :
+    arith_like V x || arith_like V y = true -> cmp_nodes op x y = Some (cmp_build V op x y).
+  Proof.
+    intro A. unfold Model.cmp_nodes. rewrite A.
+    destruct x; destruct y; simpl in A; try discriminate A; reflexivity.
+  Qed.
+
+  Theorem chain_all_links (args : nat -> option V) (r : recipe V) :
+    rguard r = true ->
+    exists t, denote V ltb leb r = Some (t, rends r) /\ (holds args t = Ok true <-> means args r).
+  Proof.
+    induction r as [b|op x y|f IH op o]; intro G.
+    - exists (ALit b). split; [reflexivity|]. apply holds_lit.
+    - simpl in G. exists (cmp_build V op x y). split.
+      + cbn [Model.denote]. rewrite (cmp_nodes_arith op x y G). destruct op; reflexivity.
+      + exact (cmp_nodes_spec args op x y _ G (cmp_nodes_arith op x y G)).
+    - cbn [rguard] in G. apply andb_true_iff in G. destruct G as [Gf Gp].
+      destruct (IH Gf) as [a [Da Ha]].
+      cbn [rends means] in *. destruct (rends f) as [e|]; [|discriminate Gp].
+      destruct (chain a e op o) as [[t e']|] eqn:C.
+      + destruct (chain_spec args a e e' op o t Gp C) as [Ht He'].
+        exists t. split.
+        * cbn [Model.denote]. rewrite Da, C. rewrite He'. reflexivity.
+        * unfold pivot_end. rewrite Ht, Ha. tauto.
+      + exfalso. unfold Model.chain in C. fold (pivot_end e op) in C.
+        rewrite (cmp_nodes_arith op (pivot_end e op) o Gp) in C. discriminate C.
   Qed.
 
   (* ---------- the specification gate ---------- *)
